@@ -1294,6 +1294,8 @@ class _iterinfo(object):
             # This will cross the year boundary, if necessary.
             if self.wdaymask[i] == self.rrule._wkst:
                 break
+        # The last week of year 9999 ends with the last representable date.
+        i = min(i, datetime.date.max.toordinal()-self.yearordinal+1)
         return dset, start, i
 
     def ddayset(self, year, month, day):
